@@ -120,6 +120,9 @@ pub struct EmuConfig {
     /// run the heap monitor at every k-th marker (0 = never)
     pub heap_check_every: u64,
     pub footprint_check: bool,
+    /// false: the heap walk does not enforce the shape/count invariant (C09's business) and only
+    /// feeds the footprint monitor (C10), so that a leak is seen as growth instead of ending the run
+    pub enforce_shape: bool,
     /// stop when control reaches this label and return a snapshot of the machine (fragments, C11)
     pub stop_label: Option<String>,
     /// initial contents of the heap (words from the heap base)
@@ -128,7 +131,7 @@ pub struct EmuConfig {
 
 impl Default for EmuConfig {
     fn default() -> Self {
-        EmuConfig { heap_bytes: 1 << 20, max_instructions: 20_000_000, heap_check_every: 1, footprint_check: true, stop_label: None, init_heap: None }
+        EmuConfig { heap_bytes: 1 << 20, max_instructions: 3_000_000, heap_check_every: 1, footprint_check: true, enforce_shape: true, stop_label: None, init_heap: None }
     }
 }
 
@@ -188,6 +191,8 @@ pub struct HeapView<'a> {
 
 #[derive(Default)]
 pub struct HeapMonitor {
+    /// None = enforce; Some(false) = footprint only
+    pub enforce_shape: Option<bool>,
     pub prev: Option<Snapshot>,
     pub max_frontier: u64,
     pub max_reachable: u64,
@@ -218,6 +223,112 @@ pub fn blocks_for(n: usize) -> u64 {
 impl HeapMonitor {
     /// Full walk: partition of the blocks below the frontier and exact reference counts.
     pub fn check(&mut self, v: &HeapView, m: &Marker, stats: &mut EmuStats, footprint: bool) -> Result<(), (ViolationKind, String)> {
+        if stats.blocks_walked > 40_000_000 {
+            // monitor work budget of one run exhausted: inconclusive, never a verdict
+            return Err((ViolationKind::OutOfBounds, "monitor budget".into()));
+        }
+        if self.enforce_shape == Some(false) {
+            return self.check_footprint_only(v, m, stats);
+        }
+        self.check_full(v, m, stats, footprint)
+    }
+
+    /// best-effort walk that never reports shape problems: frontier, list lengths, reachable blocks
+    fn check_footprint_only(&mut self, v: &HeapView, m: &Marker, stats: &mut EmuStats) -> Result<(), (ViolationKind, String)> {
+        let base = v.heap.base;
+        let end = v.heap.end();
+        let word = |addr: u64| -> u64 { v.heap.words[v.heap.idx(addr)] };
+        let valid_block = |p: u64| -> bool { p >= base && p + BLOCK <= end && (p - base) % BLOCK == 0 };
+        let nb = ((end - base) / BLOCK) as usize;
+        // deferred chain
+        let mut d = 0u64;
+        let mut p = v.free_reg.0;
+        let mut steps = 0;
+        let frontier = loop {
+            if !v.free_reg.1 || !valid_block(p) || steps > nb {
+                if p >= end && p < end + (1 << 28) {
+                    return Err((ViolationKind::OutOfBounds, "heap exhausted".into()));
+                }
+                return Ok(());
+            }
+            let next = word(p);
+            if next == 0 {
+                break p;
+            }
+            d += 1;
+            p = next;
+            steps += 1;
+        };
+        let mut l = 0u64;
+        let mut p = v.heap_reg.0;
+        let mut steps = 0;
+        while v.heap_reg.1 && valid_block(p) && steps <= nb {
+            l += 1;
+            let next = word(p);
+            if next == 0 {
+                break;
+            }
+            p = next;
+            steps += 1;
+        }
+        let mut seen = std::collections::HashSet::new();
+        let mut stack: Vec<u64> = Vec::new();
+        for (i, (val, def)) in v.roots.iter().enumerate() {
+            if m.env[i].1 != Chi::Ext && *def && *val != 0 && valid_block(*val) && *val < frontier && seen.insert(*val) {
+                stack.push(*val);
+            }
+        }
+        while let Some(b) = stack.pop() {
+            for f in 0..3u64 {
+                let c = word(b + 16 + 16 * f);
+                if c != 0 && valid_block(c) && c < frontier && seen.insert(c) {
+                    stack.push(c);
+                }
+            }
+        }
+        let nblocks = (frontier - base) / BLOCK;
+        stats.heap_walks += 1;
+        stats.blocks_walked += nblocks;
+        stats.max_frontier_blocks = stats.max_frontier_blocks.max(nblocks);
+        stats.max_reachable_blocks = stats.max_reachable_blocks.max(seen.len() as u64);
+        let snap = Snapshot { frontier_blocks: nblocks, l, d, r: seen.len() as u64, w: 0, stored: m.stored, kind: m.kind.clone() };
+        self.largest_object_blocks = self.largest_object_blocks.max(blocks_for(m.stored));
+        self.footprint(snap)
+    }
+
+    fn footprint(&mut self, snap: Snapshot) -> Result<(), (ViolationKind, String)> {
+        if let Some(prev) = &self.prev {
+            let grew = snap.frontier_blocks.saturating_sub(prev.frontier_blocks);
+            let k = blocks_for(prev.stored);
+            let supply = prev.l + prev.d;
+            let allowed = (k + 1).saturating_sub(supply);
+            if grew > allowed {
+                return Err((
+                    ViolationKind::Footprint,
+                    format!(
+                        "statement '{}' storing {} variables ({} blocks) took {} fresh blocks from the unused heap although {} reusable and {} deferred blocks were available (allowed {})",
+                        prev.kind, prev.stored, k, grew, prev.l, prev.d, allowed
+                    ),
+                ));
+            }
+            if prev.frontier_blocks > snap.frontier_blocks {
+                return Err((ViolationKind::Footprint, "allocation frontier moved backwards".into()));
+            }
+        }
+        self.max_frontier = self.max_frontier.max(snap.frontier_blocks);
+        self.max_reachable = self.max_reachable.max(snap.r);
+        let c = 2 + self.largest_object_blocks;
+        if self.max_frontier > self.max_reachable + c {
+            return Err((
+                ViolationKind::Footprint,
+                format!("frontier at {} blocks exceeds peak reachable {} by more than {}", self.max_frontier, self.max_reachable, c),
+            ));
+        }
+        self.prev = Some(snap);
+        Ok(())
+    }
+
+    fn check_full(&mut self, v: &HeapView, m: &Marker, stats: &mut EmuStats, footprint: bool) -> Result<(), (ViolationKind, String)> {
         use ViolationKind::Heap;
         let base = v.heap.base;
         let end = v.heap.end();
@@ -407,33 +518,7 @@ impl HeapMonitor {
         };
         self.largest_object_blocks = self.largest_object_blocks.max(blocks_for(m.stored));
         if footprint {
-            if let Some(prev) = &self.prev {
-                let grew = snap.frontier_blocks.saturating_sub(prev.frontier_blocks);
-                let k = blocks_for(prev.stored);
-                let supply = prev.l + prev.d;
-                let allowed = (k + 1).saturating_sub(supply);
-                if grew > allowed {
-                    return Err((
-                        ViolationKind::Footprint,
-                        format!(
-                            "statement '{}' storing {} variables ({} blocks) took {} fresh blocks from the unused heap although {} reusable and {} deferred blocks were available (allowed {})",
-                            prev.kind, prev.stored, k, grew, prev.l, prev.d, allowed
-                        ),
-                    ));
-                }
-                if prev.frontier_blocks > snap.frontier_blocks {
-                    return Err((ViolationKind::Footprint, "allocation frontier moved backwards".into()));
-                }
-            }
-            self.max_frontier = self.max_frontier.max(snap.frontier_blocks);
-            self.max_reachable = self.max_reachable.max(snap.r);
-            let c = 2 + self.largest_object_blocks;
-            if self.max_frontier > self.max_reachable + c {
-                return Err((
-                    ViolationKind::Footprint,
-                    format!("frontier at {} blocks exceeds peak reachable {} by more than {}", self.max_frontier, self.max_reachable, c),
-                ));
-            }
+            return self.footprint(snap);
         }
         self.prev = Some(snap);
         Ok(())
